@@ -318,6 +318,11 @@ def blank(prog, run):
         k = comp.generators[0].target.id if comp is not None and isinstance(comp.generators[0].target, ast.Name) else None
         same = okc = None
         if k is not None:
+            # the comprehension variable indexes the blanking only when predicate or kept array are read at [.., k]; a `where` over the
+            # whole arrays that merely sits inside a later comprehension (after expansion) is the broadcast form
+            if not astq.strip_index(cp, k)[1] and not astq.strip_index(fp_ if _is_nan(prog, pf, tp) else tp, k)[1]:
+                k = None
+        if k is not None:
             gen, hits = astq.strip_index(cp, k)
             kept = fp_ if _is_nan(prog, pf, tp) else tp
             kgen, khits = astq.strip_index(kept, k)
